@@ -28,7 +28,8 @@ EXPLANATION = (
     "and exact ones, readers are tried built-in -> wrapper -> custom, built-in names equal their identifiers; (D5) "
     "no one-shot iterator is exhausted inside a repeated region, the symbol table for instance parameters comes from "
     "the record's own free_symbols on both reader paths and is passed to sympify as locals, no hidden state "
-    "(mutable defaults, module-level caches) in the (de)serialiser."
+    "(mutable defaults, module-level caches) in the (de)serialiser. "
+    "(D2w) custom-gate definitions are collected through modifier wrappers; (D5n) the stored text of a parameter is never parsed by float()/complex() (which accept the identifiers j, inf, nan) before the symbol table is consulted, also through helpers."
 )
 RULE_TEXT = "instances = record keys per writer/reader pair, gate classes, constructor slots, routing tests, deserialiser functions; distinct by (rule, construct)"
 ASSUMPTIONS = [
